@@ -30,7 +30,7 @@ func main() {
 	prop := flag.String("property", "C16", "")
 	workers := flag.Int("workers", 32, "goroutines sharing one client")
 	iters := flag.Int("iters", 400, "operations per goroutine")
-	patience := flag.Int("patience", 60, "seconds after which pending operations count as hung")
+	patience := flag.Int("patience", 60, "seconds without any completed operation after which pending operations count as hung")
 	flag.String("replay", "", "")
 	flag.Parse()
 	sum := &hcommon.Summary{Family: "clientrace", Property: *prop, Seed: *seed, Tier: *tier,
@@ -49,7 +49,7 @@ func main() {
 		return
 	}
 	defer r.Close()
-	cfg := client.Config{Realm: "r", ResponseTimeout: 5 * time.Second, Logger: lg}
+	cfg := client.Config{Realm: "r", ResponseTimeout: 30 * time.Second, Logger: lg}
 	callee, err := client.ConnectLocal(r, cfg)
 	if err != nil {
 		sum.Disagreements = append(sum.Disagreements, hcommon.Disagreement{Detail: "callee: " + err.Error()})
@@ -127,16 +127,32 @@ func main() {
 	}
 	done := make(chan struct{})
 	go func() { wg.Wait(); close(done) }()
-	select {
-	case <-done:
-	case <-time.After(time.Duration(*patience) * time.Second):
-		bad(map[string]any{"workers": *workers, "iters": *iters}, "operations still pending", "every operation returns",
-			fmt.Sprintf("client API calls issued concurrently through one client did not all return within %d s", *patience))
-		mu.Lock()
-		sum.DistinctNontrivial = sum.Evaluations
-		sum.Write(*out)
-		mu.Unlock()
-		os.Exit(0)
+	// hung = no operation completed for `patience` seconds (a slow machine is not a hang)
+	last, idle := -1, 0
+wait:
+	for {
+		select {
+		case <-done:
+			break wait
+		case <-time.After(time.Second):
+			mu.Lock()
+			cur := sum.Evaluations
+			mu.Unlock()
+			if cur != last {
+				last, idle = cur, 0
+				continue
+			}
+			if idle++; idle < *patience {
+				continue
+			}
+			bad(map[string]any{"workers": *workers, "iters": *iters}, "operations still pending", "every operation returns",
+				fmt.Sprintf("client API calls issued concurrently through one client: none returned for %d s", *patience))
+			mu.Lock()
+			sum.DistinctNontrivial = sum.Evaluations
+			sum.Write(*out)
+			mu.Unlock()
+			os.Exit(0)
+		}
 	}
 	sum.DistinctNontrivial = sum.Evaluations
 	sum.Count(fmt.Sprintf("workers.%d", *workers))
